@@ -52,8 +52,14 @@ def source_encrypt(kind, length, with_ext):
         tmpl = SecOperation(sec_type='bcb', role='source', priv_key_id=KID, content_alg=algorithms.A256GCM,
                             content_key=bytes(range(100, 132)), content_iv=ivs)
     cose.sym_key_store[KID] = key
-    cose.sec_assoc.append(SecAssociation(src_pat=re.compile(re.escape(SRC) + '.*'), dst_pat=re.compile('.*'),
-                                         tgt_blk_types=[1] + ([195] if with_ext else []), templates=[tmpl]))
+    if with_ext == 'rev':
+        # two associations, the one for the extension block (higher block number) first
+        for typ in (195, 1):
+            cose.sec_assoc.append(SecAssociation(src_pat=re.compile(re.escape(SRC) + '.*'), dst_pat=re.compile('.*'),
+                                                 tgt_blk_types=[typ], templates=[tmpl]))
+    else:
+        cose.sec_assoc.append(SecAssociation(src_pat=re.compile(re.escape(SRC) + '.*'), dst_pat=re.compile('.*'),
+                                             tgt_blk_types=[1] + ([195] if with_ext else []), templates=[tmpl]))
     world.send(impl_container(plain_bundle(length, with_ext)))
     world.quiesce()
     sent = world.sent()
@@ -313,9 +319,11 @@ def scenarios(tier):
     out = []
     for kind in ('enc0', 'enc-kw'):
         for length in LENGTHS:
-            for with_ext in (False, True):
-                flips = (length in (1, 16, 17) or (tier == 'thorough')) and (not with_ext or length == 16)
-                name = '%s-len%d%s' % (kind, length, '+ext' if with_ext else '')
+            for with_ext in (False, True, 'rev'):
+                if with_ext == 'rev' and length not in (0, 16):
+                    continue
+                flips = (length in (1, 16, 17) or (tier == 'thorough')) and (not with_ext or length == 16) and with_ext != 'rev'
+                name = '%s-len%d%s' % (kind, length, {False: '', True: '+ext', 'rev': '+ext-first'}[with_ext])
                 out.append(dict(name=name, kind='enum', runner='run_case',
                                 params=dict(name=name, kind=kind, length=length, with_ext=with_ext, flips=flips),
                                 weight=(length + 150) if flips else 1))
